@@ -47,6 +47,15 @@ def pkg():
     return t, h, c
 
 
+def pristine(t) -> bool:
+    """no converter has been created in this process yet: the forward references of the generated classes are still
+    unresolved (observed on the classes themselves, not on a private flag of the package)."""
+    import typing
+    import attrs
+    ty = attrs.fields(t.Location).range.type
+    return isinstance(ty, (str, typing.ForwardRef))
+
+
 # ---- battery ------------------------------------------------------------------------------------
 def fixed_battery() -> List[Tuple[str, Any]]:
     pos = {"line": 1, "character": 2}
@@ -226,7 +235,7 @@ def child_schedule(n: int, segments: List[Tuple[int, int]], battery: List[Tuple[
         th.join(5)
     out: Dict[str, Any] = {"raised": [], "outcomes": {}, "points": dict(sched.points), "switches": sched.switches,
                            "trace": sched.trace[:12], "blocked_skips": sched.blocked_skips,
-                           "resolved_flag": bool(h._resolved_forward_references)}
+                           "resolved_flag": not pristine(t)}
     for tid in range(n):
         r = results.get(tid)
         if r is None:
@@ -289,7 +298,7 @@ def child_reference(battery: List[Tuple[str, Any]]) -> dict:
 def _work_sched(args) -> dict:
     shard, seed, n_cases = args
     t, h, c = pkg()
-    if h._resolved_forward_references:
+    if not pristine(t):
         raise HarnessError("parent is not pristine: forward references already resolved")
     ctx = Ctx("C19", "quick", seed)
     battery = fixed_battery()
@@ -414,7 +423,7 @@ def child_history(ops: List[Any], fixed: List[Tuple[str, Any]], reference: List[
 def _work_hist(args) -> dict:
     shard, seed, examples, steps = args
     t, h, c = pkg()
-    if h._resolved_forward_references:
+    if not pristine(t):
         raise HarnessError("history worker is not pristine")
     ctx = Ctx("C19", "quick", seed)
     stats = collections.Counter()
@@ -544,19 +553,98 @@ def _work_real(args) -> dict:
             "stats": dict(stats), "samples": [], "distinct": [], "kind": "real"}
 
 
+# ---- (D) configurations x generated inputs ------------------------------------------------------------------------
+PLAIN_CONFIGS = [k for k in CONFIGS if k not in CUSTOMISED]
+
+
+def union_items(model, objects, sites_per_occurrence: Optional[int]) -> List[tuple]:
+    from .. import tvgen
+    sites = tvgen.Sites(objects)
+    items = []
+    for locus, ty in model.union_occurrences():
+        if locus.split("|")[0] == "alias:LSPAny":
+            continue
+        for root, route in sites.sites(locus, sites_per_occurrence):
+            if root[0] == "alias":
+                continue
+            for i in range(len(ty["items"])):
+                items.append((locus, i, root, route + [f"{locus}|{i}"]))
+    return items
+
+
+def _work_cfg(args) -> dict:
+    """every union alternative at its use sites, k routed values each: all non-customised configurations must give the
+    outcome of the plain get_converter() (the unions are where configuration-dependent machinery of cattrs is used)."""
+    shard, nshards, seed, k, sites_per_occurrence = args
+    t, h, c = pkg()
+    import cattrs
+    from .. import tvgen
+    from ..refmodel import Model, load_doc
+    model = Model(load_doc(repo_path("generator", "lsp.json")))
+    objects = tvgen.Objects(model)
+    items = union_items(model, objects, sites_per_occurrence)[shard::nshards]
+    ctx = Ctx("C19", "quick", seed)
+    stats = collections.Counter()
+    made = {
+        "fresh": c.get_converter(),
+        "Converter(dv=True)": c.get_converter(cattrs.Converter(detailed_validation=True)),
+        "Converter(dv=False)": c.get_converter(cattrs.Converter(detailed_validation=False)),
+        "GenConverter()": c.get_converter(cattrs.GenConverter()),
+        "Converter()": c.get_converter(cattrs.Converter()),
+    }
+    distinct = set()
+
+    def type_name(root: tuple) -> str:
+        if root[0] in ("struct", "and", "special"):
+            return root[1]
+        kind_, msg_ = objects.message(root[2])
+        req, resp = model.message_class_names(kind_, msg_)
+        return resp if root[1] == "response" else req
+
+    for (occ, idx, root, route) in items:
+        try:
+            name = type_name(root)
+            getattr(t, name)
+        except Exception:
+            continue
+        strat = tvgen.value_strategy(objects, root, tvgen.GenCfg(route=route, max_nodes=120))
+
+        def one(x):
+            tv, _ = x
+            j = tvgen.erase(tv)
+            ref = outcome(made["fresh"], t, name, j)
+            stats["cfg_inputs"] += 1
+            distinct.add(tvgen.canon_hash([name, j]))
+            for label, conv in made.items():
+                if label == "fresh":
+                    continue
+                stats["cfg_comparisons"] += 1
+                got = outcome(conv, t, name, j)
+                if got != ref:
+                    ctx.finding(("configuration-differs", f"{occ}#{idx}", label),
+                                f"{name} {json.dumps(j)[:200]}: get_converter({label}) gives {str(got)[:200]}, get_converter() gives {str(ref)[:200]}",
+                                {"type": name, "json": j, "config": label})
+
+        mini(strat, k, (seed, "C19cfg", occ, idx, name), one)
+    return {"violations": list(ctx.violations.values()), "known_hits": ctx.known_hits, "known_examples": ctx.known_examples,
+            "stats": dict(stats), "samples": [], "distinct": [f"cfg:{d}" for d in sorted(distinct)[:2000]], "kind": "cfg"}
+
+
 def _dispatch(job):
     kind = job[0]
-    return {"sched": _work_sched, "hist": _work_hist, "real": _work_real}[kind](job[1:])
+    return {"sched": _work_sched, "hist": _work_hist, "real": _work_real, "cfg": _work_cfg}[kind](job[1:])
 
 
 def run(ctx: Ctx) -> None:
     t, h, c = pkg()
-    if h._resolved_forward_references:
+    if not pristine(t):
         raise HarnessError("main process is not pristine")
     if ctx.quick:
         jobs = [("sched", s, ctx.seed, 5) for s in range(10)] + [("hist", s, ctx.seed, 8, 12) for s in range(6)]
+        jobs += [("cfg", s, 8, ctx.seed, 4, 2) for s in range(8)]
     else:
         jobs = [("sched", s, ctx.seed, 60) for s in range(10)] + [("hist", s, ctx.seed, 40, 25) for s in range(4)] + [("real", s, ctx.seed, 25) for s in range(2)]
+        jobs += [("cfg", s, 16, ctx.seed, 40, None) for s in range(16)]
     results = runner.pmap(_dispatch, jobs)
     stats = collections.Counter()
     distinct = set()
@@ -567,7 +655,7 @@ def run(ctx: Ctx) -> None:
         distinct |= set(r["distinct"])
         samples.extend(r["samples"][:1])
         ctx.merge_worker(r)
-    evaluations = stats["sched:cases"] + stats["hist:creations"] + stats["hist:uses"] + stats["real:real_thread_trials"]
+    evaluations = stats["sched:cases"] + stats["hist:creations"] + stats["hist:uses"] + stats["real:real_thread_trials"] + stats["cfg:cfg_comparisons"]
     if stats["hist:histories"] == 0 or stats["sched:cases"] == 0:
         raise HarnessError("no schedules or no histories were executed")
     ctx.coverage.update({
